@@ -1,160 +1,9 @@
 ---------------------------- MODULE FilterProto ----------------------------
-(* L2: the filter "value list" protocol -- how the code is meant to achieve    *)
-(* what Semantics!Holds demands (C09), without ever writing to memory it does  *)
-(* not own (C04: the caller's array; C05/C06: the literal cells of the parsed  *)
-(* tree and the package-level emptyList / fullList).                           *)
-(*                                                                             *)
-(* Every comparator / validator / logical operator overwrites the list it is   *)
-(* given; a list of length 1 means "whole match", a list of length n means     *)
-(* "per member".  The heap H holds list cells: CALLER (the source array when a *)
-(* filter runs on an array), LIT(k) (cells owned by the parsed tree), EMPTYL,   *)
-(* FULLL (package level) and fresh cells; H.w is the set of cells written.      *)
-(*   NoProtectedWrite : no protected cell is ever written                       *)
-(*   Refines          : the decoded selection = {m : Holds(q, m)} when the      *)
-(*                      outcome is determined (5.7a), including the n = 1       *)
-(*                      ambiguity between "whole match" and "one member"        *)
-(* AsCoded = TRUE switches the three protective mechanisms to what the pinned   *)
-(* tree had (both-missing == returns the list it was given; the literal is      *)
-(* handed out by reference; operands swapped whenever the left one is           *)
-(* literal-like): TLC must then find a counterexample -- those (query,          *)
-(* container) pairs are the kill queries of the conformance corpus.             *)
-EXTENDS Integers, Sequences, TLC, FiniteSets
-CONSTANTS AsCoded,     \* TRUE: the mechanisms as the pinned tree had them; FALSE: as the repaired tree has them
-          PDepth       \* 1: atoms and negated atoms; 2: all && / || pairs of them
-
-V(ty, n) == [ty |-> ty, n |-> n]
-ABSENT == V("absent", 0)
-EMPTY  == V("empty", 0)
-TRUEV  == V("bool", 1)
-Num(n) == V("num", n)
-Str(n) == V("str", n)
-
-\* cell ids
-CALLER == 0
-EMPTYL == 1
-FULLL  == 2
-LIT(k) == 2 + k          \* k = 1,2
-Protected == {CALLER, EMPTYL, FULLL, LIT(1), LIT(2)}
-
-\* heap record: [c: cells (function id -> seq), nx: next fresh id, w: set of written ids]
-Alloc(H, s) == [H EXCEPT !.c = (H.nx :> s) @@ H.c, !.nx = H.nx + 1]
-Wr(H, id, i, v) == [H EXCEPT !.c[id][i] = v, !.w = H.w \cup {id}]
-
-\* operands: [k: "lit", id: 1|2, v] | [k: "cur", f: "a"|"b"] | [k: "root", f: "x"|"y"]
-\* members are records [a |-> val, b |-> val]; root is [x |-> val, y |-> val]; members "identity" is their index
-
-RECURSIVE ValidateFrom(_, _, _, _), CompareFrom(_, _, _, _, _, _)
-
-\* blank entries not of type ty (ty = "any": nothing blanked); returns [H, found]
-ValidateFrom(H, id, i, ty) ==
-  IF i > Len(H.c[id]) THEN [H |-> H, found |-> FALSE]
-  ELSE LET e == H.c[id][i] IN
-       IF e.ty = "empty" THEN ValidateFrom(H, id, i + 1, ty)
-       ELSE IF ty = "any" \/ e.ty = ty THEN [H |-> ValidateFrom(H, id, i + 1, ty).H, found |-> TRUE]
-       ELSE ValidateFrom(Wr(H, id, i, EMPTY), id, i + 1, ty)
-
-\* comparator: blank left entries that do not satisfy op against r; direct EQ does not skip empties
-CompareFrom(H, id, i, op, r, direct) ==
-  IF i > Len(H.c[id]) THEN [H |-> H, has |-> FALSE]
-  ELSE LET e == H.c[id][i] IN
-       IF e.ty = "empty" /\ ~direct THEN CompareFrom(H, id, i + 1, op, r, direct)
-       ELSE LET sat == CASE op = "==" -> e = r
-                        [] op = "<" -> e.ty = "num" /\ e.n < r.n IN
-            IF sat THEN [H |-> CompareFrom(H, id, i + 1, op, r, direct).H, has |-> TRUE]
-            ELSE CompareFrom(Wr(H, id, i, EMPTY), id, i + 1, op, r, direct)
-
-\* parameter evaluation -> [H, out]
-Param(H, o, mems, root, lits) ==
-  CASE o.k = "lit" -> IF AsCoded THEN [H |-> H, out |-> LIT(o.id)]
-                      ELSE LET H2 == Alloc(H, H.c[LIT(o.id)]) IN [H |-> H2, out |-> H.nx]
-    [] o.k = "cur" -> LET s == [i \in 1..Len(mems) |-> IF mems[i][o.f] = ABSENT THEN EMPTY ELSE mems[i][o.f]] IN
-                      IF \A i \in 1..Len(s) : s[i] = EMPTY THEN [H |-> H, out |-> EMPTYL]
-                      ELSE [H |-> Alloc(H, s), out |-> H.nx]
-    [] o.k = "root" -> IF root[o.f] = ABSENT THEN [H |-> H, out |-> EMPTYL]
-                       ELSE [H |-> Alloc(H, <<root[o.f]>>), out |-> H.nx]
-
-IsLitLike(o) == o.k \in {"lit", "root"}
-
-RECURSIVE Compute(_, _, _, _, _, _), NotFrom(_, _, _), AndFrom(_, _, _, _), OrFrom(_, _, _, _)
-
-NotFrom(H, id, i) ==
-  IF i > Len(H.c[id]) THEN [H |-> H, has |-> FALSE]
-  ELSE IF H.c[id][i] = EMPTY THEN [H |-> NotFrom(Wr(H, id, i, TRUEV), id, i + 1).H, has |-> TRUE]
-       ELSE NotFrom(Wr(H, id, i, EMPTY), id, i + 1)
-AndFrom(H, l, r, i) ==
-  IF i > Len(H.c[r]) THEN [H |-> H, has |-> FALSE]
-  ELSE IF H.c[r][i] = EMPTY THEN AndFrom(Wr(H, l, i, EMPTY), l, r, i + 1)
-       ELSE LET rest == AndFrom(H, l, r, i + 1) IN [H |-> rest.H, has |-> rest.has \/ H.c[l][i] # EMPTY]
-OrFrom(H, l, r, i) ==
-  IF i > Len(H.c[r]) THEN H
-  ELSE IF H.c[r][i] # EMPTY THEN OrFrom(Wr(H, l, i, H.c[r][i]), l, r, i + 1) ELSE OrFrom(H, l, r, i + 1)
-
-\* cur = id of the list the filter node passed in (CALLER for arrays)
-Compute(q, H, cur, mems, root, lits) ==
-  CASE q.k = "exist" -> Param(H, q.p, mems, root, lits)
-    [] q.k = "cmp" ->
-        \* parse-time operand order: as coded swaps whenever the left is literal-like;
-        \* intended: swap only towards a non-literal-value right operand
-        LET swap == IF AsCoded THEN IsLitLike(q.l) ELSE (IsLitLike(q.l) /\ q.r.k # "lit")
-            lo == IF swap /\ q.op = "==" THEN q.r ELSE q.l
-            ro == IF swap /\ q.op = "==" THEN q.l ELSE q.r
-            ty == IF q.op = "<" THEN "num" ELSE IF ro.k = "lit" THEN ro.v.ty ELSE "any"
-            direct == q.op = "==" /\ ro.k = "lit"
-            pl == Param(H, lo, mems, root, lits)
-            vl == ValidateFrom(pl.H, pl.out, 1, ty)
-            pr == Param(vl.H, ro, mems, root, lits)
-            vr == ValidateFrom(pr.H, pr.out, 1, ty) IN
-        IF vl.found /\ vr.found THEN
-            LET c == CompareFrom(vr.H, pl.out, 1, q.op, vr.H.c[pr.out][1], direct) IN
-            IF c.has THEN [H |-> c.H, out |-> pl.out] ELSE [H |-> c.H, out |-> EMPTYL]
-        ELSE IF ~vl.found /\ ~vr.found /\ q.op = "==" /\ ty = "any"
-             THEN [H |-> vr.H, out |-> IF AsCoded THEN cur ELSE FULLL]
-        ELSE [H |-> vr.H, out |-> EMPTYL]
-    [] q.k = "not" ->
-        LET r == Compute(q.q, H, cur, mems, root, lits) IN
-        IF Len(r.H.c[r.out]) = 1 THEN [H |-> r.H, out |-> IF r.H.c[r.out][1] = EMPTY THEN FULLL ELSE EMPTYL]
-        ELSE LET n == NotFrom(r.H, r.out, 1) IN [H |-> n.H, out |-> IF n.has THEN r.out ELSE EMPTYL]
-    [] q.k = "and" ->
-        LET l == Compute(q.l, H, cur, mems, root, lits) IN
-        IF Len(l.H.c[l.out]) = 1 THEN
-            (IF l.H.c[l.out][1] = EMPTY THEN l ELSE Compute(q.r, l.H, cur, mems, root, lits))
-        ELSE LET r == Compute(q.r, l.H, cur, mems, root, lits) IN
-             IF Len(r.H.c[r.out]) = 1 THEN
-                 (IF r.H.c[r.out][1] = EMPTY THEN r ELSE [H |-> r.H, out |-> l.out])
-             ELSE LET a == AndFrom(r.H, l.out, r.out, 1) IN [H |-> a.H, out |-> IF a.has THEN l.out ELSE EMPTYL]
-    [] q.k = "or" ->
-        LET l == Compute(q.l, H, cur, mems, root, lits) IN
-        IF Len(l.H.c[l.out]) = 1 THEN
-            (IF l.H.c[l.out][1] = EMPTY THEN Compute(q.r, l.H, cur, mems, root, lits) ELSE l)
-        ELSE LET r == Compute(q.r, l.H, cur, mems, root, lits) IN
-             IF Len(r.H.c[r.out]) = 1 THEN
-                 (IF r.H.c[r.out][1] = EMPTY THEN [H |-> r.H, out |-> l.out] ELSE r)
-             ELSE [H |-> OrFrom(r.H, l.out, r.out, 1), out |-> l.out]
-
-\* what the filter node selects from the final list
-Selected(H, out, n) ==
-  IF Len(H.c[out]) = n THEN {i \in 1..n : H.c[out][i] # EMPTY}
-  ELSE IF H.c[out][1] = EMPTY THEN {} ELSE 1..n
-
-\* ---------------- L1: per-member Boolean semantics
-OpV(o, m, root) == CASE o.k = "lit" -> o.v [] o.k = "cur" -> m[o.f] [] o.k = "root" -> root[o.f]
-RECURSIVE Holds(_, _, _)
-Holds(q, m, root) ==
-  CASE q.k = "exist" -> OpV(q.p, m, root) # ABSENT
-    [] q.k = "not" -> ~Holds(q.q, m, root)
-    [] q.k = "and" -> Holds(q.l, m, root) /\ Holds(q.r, m, root)
-    [] q.k = "or" -> Holds(q.l, m, root) \/ Holds(q.r, m, root)
-    [] q.k = "cmp" -> LET a == OpV(q.l, m, root)  b == OpV(q.r, m, root) IN
-         IF q.op = "<" THEN a.ty = "num" /\ b.ty = "num" /\ a.n < b.n
-         ELSE IF a # ABSENT /\ b # ABSENT THEN a = b
-         ELSE a = ABSENT /\ b = ABSENT /\ q.l.k # "lit" /\ q.r.k # "lit"
-RECURSIVE Det(_, _, _)
-Det(q, mems, root) ==
-  CASE q.k \in {"and", "or"} -> Det(q.l, mems, root) /\ Det(q.r, mems, root)
-    [] q.k = "not" -> Det(q.q, mems, root)
-    [] q.k = "cmp" /\ q.op = "==" /\ q.l.k # "lit" /\ q.r.k # "lit" ->
-         \A i \in 1..Len(mems) : OpV(q.l, mems[i], root) # ABSENT \/ OpV(q.r, mems[i], root) # ABSENT
-    [] OTHER -> TRUE
+(* One filter evaluation of the value-list protocol (operators: module        *)
+(* FilterProtoOps, where the protocol is described): all queries x all small   *)
+(* (root, member list) combinations.  See FilterProtoHist for call sequences.  *)
+EXTENDS FilterProtoOps
+CONSTANT PDepth       \* 1: atoms and negated atoms; 2: all && / || pairs of them
 
 \* ---------------- model
 Vals == {ABSENT, Num(1), Num(2), Str(1)}
